@@ -167,7 +167,7 @@ PROFILES.update({
              "deaths": False, "steps": 20},
     "hooks": {"hooks": HOOK_NAMES[:8], "cmds": ["start", "stop", "restart", "signal", "kill", "reload"],
               "stubborn": 0.5, "steps": 16},
-    "signals": {"watchers": 3, "stop_children": True, "fork": 0.25, "cmds": ["signal", "signal", "kill", "stop", "incr"],
+    "signals": {"watchers": 3, "stop_children": True, "fork": 0.25, "anypid": 0.7, "cmds": ["signal", "signal", "kill", "stop", "incr"],
                 "steps": 18},
     "boot": {"watchers": 4, "autostart": True, "cmds": ["restart", "start", "stop"], "steps": 8, "kcall_deaths": 0.6,
              "check_delays": [1.0, 2.0]},
@@ -246,8 +246,10 @@ def refusal(seed):
     names = ["w1", "w2", "w3", "W1", "nosuch", "", 7]
     sigs = ["bogus", "SIG", "", 99999, "TERM ", None, [], "KILL!"]
 
+    state = {"i": 0}
+
     def corrupt():
-        k = rng.randrange(16)
+        k = rng.choice([0, 1, 2, 3, 4, 5, 6, 6, 6, 7, 7, 8, 9, 10, 11, 12, 13, 14, 14, 15])
         n = rng.choice(["w1", "w2", "w3"])
         if k == 0:
             return {"op": "req", "cmd": None, "raw": rng.choice(['{"command": "stop", "properties": {"name": "w1"}',
@@ -263,9 +265,27 @@ def refusal(seed):
             return {"op": "req", "cmd": "set", "props": {"name": n, "options": rng.choice([[1], "x", 3])}}
         if k == 5:
             return {"op": "req", "cmd": "set", "props": {"name": n, "options": {rng.choice(["nosuchoption", "numprocesse", ""]): 2}}}
-        if k == 6:
-            return {"op": "req", "cmd": "set", "props": {"name": n, "options": {rng.choice(
-                ["numprocesses", "warmup_delay", "graceful_timeout", "max_retry"]): rng.choice(["x", [], {"a": 1}, None])}}}
+        if k == 6:      # ill-typed value for any typed option, alone or after options that are fine
+            table = [(["numprocesses", "max_retry", "max_age", "max_age_variance", "stop_signal"],
+                      ["x", "NOSUCHSIG", "TERM", 1.5, None, []]),
+                     (["warmup_delay", "retry_in", "graceful_timeout"], ["x", None, [], {"a": 1}]),
+                     (["uid", "gid"], [1.5, [], None]),
+                     (["send_hup", "shell", "copy_env", "respawn", "stop_children", "close_child_stdin"],
+                      ["yes", 1, None, "true"]),
+                     (["env"], ["x", {"A": 1}, 3]), (["hooks"], ["x", {"nosuch_hook": "a.b"}]),
+                     (["stderr_stream", "stdout_stream"], ["x", {}, {"filename": "/tmp/x"}]),
+                     (["rlimit_nofile", "rlimit_bogus"], ["x", 1.5])]
+            flat = [(kk, vv) for keys, vals in table for kk in keys for vv in vals]
+            state["i"] += 1          # walk the whole (option, bad value) table systematically across scenarios
+            bad = flat[(seed * 5 + state["i"]) % len(flat)]
+            if bad[0] == "rlimit_bogus":
+                bad = ("rlimit_bogus", 1)
+            good = [("warmup_delay", 0.2), ("graceful_timeout", 0.4), ("max_retry", 3), ("numprocesses", 2)]
+            items = rng.sample(good, rng.choice([0, 1, 1, 2]))
+            items = [g for g in items if g[0] != bad[0]]
+            items.insert(rng.choice([len(items), len(items), rng.randint(0, len(items))]), bad)
+            return {"op": "req", "cmd": "set", "props": {"name": rng.choice(["w1", "w3"]), "options": dict(items),
+                                                         "waiting": rng.random() < 0.3}}
         if k == 7:      # semantically invalid values; multi-option with the bad one in any position
             good = [("warmup_delay", 0.2), ("graceful_timeout", 0.4), ("max_retry", 3)]
             bad = rng.choice([("numprocesses", 3) if n == "w2" else ("uid", "no-such-user-xyz"),
